@@ -52,6 +52,7 @@ type gen struct {
 	hostile    int  // number of hostile strings drawn
 	invalid    int  // number of invalid UTF-8 strings drawn
 	allowInval bool // whether invalid UTF-8 strings may be drawn
+	forceHuge  bool // the next resource gets a spec above 1 MiB
 }
 
 func newGen(r *rand.Rand) *gen { return &gen{r: r} }
@@ -231,7 +232,7 @@ const (
 	sizeEmpty sizeClass = iota
 	sizeSmall
 	sizeMedium
-	sizeLarge // ~4-40 KiB
+	sizeLarge // 4-16 KiB
 	sizeHuge  // > 1 MiB
 )
 
@@ -264,12 +265,10 @@ func (g *gen) size() (sizeClass, int) {
 		return sizeEmpty, 0
 	case p < 110:
 		return sizeSmall, 1 + g.r.IntN(40)
-	case p < 180:
+	case p < 192:
 		return sizeMedium, 40 + g.r.IntN(400)
-	case p < 199:
-		return sizeLarge, 4096 + g.r.IntN(36<<10)
 	default:
-		return sizeHuge, (1 << 20) + 4096 + g.r.IntN(1<<19)
+		return sizeLarge, 4096 + g.r.IntN(12<<10)
 	}
 }
 
@@ -396,7 +395,7 @@ func (g *gen) resource(maxSize sizeClass, allowInvalid bool) *genCase {
 	g.allowInval = allowInvalid && g.r.IntN(8) == 0 // a minority of the cases carries invalid UTF-8
 
 	k := kind(g.r.IntN(int(numKinds)))
-	tiny := g.r.IntN(12) == 0 // forces a very short encoding (below the 64 byte threshold)
+	tiny := g.r.IntN(12) == 0 && !g.forceHuge // forces a very short encoding (below the 64 byte threshold)
 
 	var ns, id, typ string
 
@@ -461,7 +460,10 @@ func (g *gen) resource(maxSize sizeClass, allowInvalid bool) *genCase {
 	}
 
 	sc, n := g.size()
-	if sc > maxSize {
+	if g.forceHuge {
+		sc, n = sizeHuge, (1<<20)+4096+g.r.IntN(1<<19)
+		tiny = false
+	} else if sc > maxSize {
 		sc, n = sizeMedium, 40+g.r.IntN(400)
 	}
 
@@ -530,10 +532,17 @@ func (g *gen) resource(maxSize sizeClass, allowInvalid bool) *genCase {
 			spec.List = g.strList(g.str)
 			spec.Map = g.strMap(g.str)
 
+			// yaml renders []byte as a sequence of integers (very slow for big slices): the bulk goes into the string field
+			rawLen := min(n, 2048)
+
+			if n > rawLen {
+				spec.Str = g.payload(n, compressible)
+			}
+
 			if compressible {
-				spec.Raw = []byte(g.payload(n, true))
+				spec.Raw = []byte(g.payload(rawLen, true))
 			} else {
-				spec.Raw = make([]byte, n)
+				spec.Raw = make([]byte, rawLen)
 				for i := range spec.Raw {
 					spec.Raw[i] = byte(g.r.IntN(256))
 				}
